@@ -125,6 +125,10 @@ def derive(kind, op, x):
         return svg.Path("M 20,20 L 21,22") + x
     if op == "addpath":            # segment + Path
         return x + svg.Path("L 30,31 L 32,30")
+    if op == "subadd":             # the segment is the RIGHT operand of Subpath + segment
+        return svg.Path("M 20,20 L 21,22 M 1,1 L 2,2").subpath(0) + x
+    if op == "addsub":             # segment + Subpath
+        return x + svg.Path("L 30,31 L 32,30 M 1,1 L 2,2").subpath(0)
     if op == "mulid":
         return x * [svg.Matrix(), "scale(1)", "translate(0,0)", ""][len(kind) % 4]
     if op == "add":
